@@ -244,13 +244,20 @@ def scenario(job):
             d.addBoth(on_start_result)
             w.sd = None
             w.stopped = False
+            w.unrecoverable = False
 
         def on_start_result(r):
             w.res.append(r)
+            # the start() Deferred reports a failure only for something unrecoverable that actually happened (a processor
+            # failure, a commit refused for good); retriable commit errors and back-off are not that
+            if isinstance(r, Failure):
+                ctx.check(w.unrecoverable, "start-deferred-fails-only-on-unrecoverable-error", "start() Deferred failed with %r although nothing unrecoverable was injected" % (r.value,))
+            else:
+                ctx.check(w.stopped or w.sd is not None or w.consumer._stopping, "start-deferred-succeeds-only-on-stop", "start() Deferred fired with %r while running" % (r,))
             if isinstance(r, Failure) and job["stop_on_fail"] and w.consumer._start_d is not None and not w.consumer._stopping:
                 ctx.log("app-stops-on-failure")
-                w.consumer.stop()
                 w.stopped = True
+                w.consumer.stop()
 
         def ok_hi():
             """one past the last log index of the contiguous successfully-processed prefix"""
@@ -278,6 +285,7 @@ def scenario(job):
                 return d
             if w.fails > 0 and ctx.choose("proc_raises", 2) == 1:
                 w.fails -= 1
+                w.unrecoverable = True
                 w.blocks.append([a, b, "failed"])
                 kind = ctx.choose("proc_error_kind", 2)
                 ctx.log("proc-raised", kind)
@@ -363,8 +371,10 @@ def scenario(job):
                     store["v"] = req.offset
                     w.client.fail(p, FailedPayloadsError([], [(req, Failure(RequestTimedOutError("lost")))]))
                 elif k == 3:
+                    w.unrecoverable = True
                     w.client.fail(p, IllegalGeneration())
                 else:
+                    w.unrecoverable = True
                     w.client.fail(p, ValueError("not a kafka error"))
             elif p.kind == "offset_fetch":
                 v = store["v"]
@@ -432,6 +442,7 @@ def scenario(job):
                     d.callback(None)
                 else:
                     w.fails -= 1
+                    w.unrecoverable = True
                     ent[2] = "failed"
                     kind = ctx.choose("proc_error_kind", 2)
                     ctx.log("proc-failed", kind)
@@ -446,8 +457,8 @@ def scenario(job):
                 ctx.log("timer", fire_next_timer(w.clock))
             elif a == 5:
                 ctx.log("stop")
-                w.consumer.stop()
                 w.stopped = True
+                w.consumer.stop()
             elif a == 6:
                 ctx.log("shutdown")
                 w.sd = []
